@@ -72,7 +72,7 @@ CLAIMED = {
         technique="static analysis: must-guard (dominance of tree adoption by the validity component) and def-use/typestate of the validation request through apply_fixes' recursion",
         text="Decides that the fix loop only adopts a tree whose apply_fixes validity component was true, that every structure-changing edit kind and "
         "every failed child validation sets the validation request, and that a returned validity can only come from validate_segment_with_reparse, "
-        "the explicit unparsable arms, or constant False — never a constant True or a value left over from a child.",
+        "the explicit unparsable arms, or constant False — never a constant True or a value left over from a child; and (R13d) that validate_segment_with_reparse itself answers True only on the declared-empty arm or after a complete re-match (matched_slice == slice(0, len(content))) whose unparsable sections are a subset of those present before, never from an except handler.",
         note="Does not decide that validation of the edited token list implies that the re-lexed text parses (value-level gap named by the property itself). " + TRUST,
         design_ref="DESIGN.md §3 C13",
     ),
@@ -296,7 +296,7 @@ LATER_RULES = {
     "C33": "R33a also: the seen set only grows; R33c variant / templated-file coherence; R33d CLI listing sorted at the print site; R33e noqa filters preserve order. R33f descriptions embed no templated-file coordinates.",
     "C34": "R34b limit read from the file's own config; R34d skip-fail escalation on every exit.",
     "C06": "R06d prune_options drops only on a failed raw and type test; R06e next_match candidate order; R06f cache keys fresh per matcher; R06g a plain GREEDY sequence is never a prunable option.",
-    "C13": "R13c nested re-parse validation runs under the file's node budget.",
+    "C13": "R13c nested re-parse validation runs under the file's node budget. R13d the re-parse oracle: positive answers of validate_segment_with_reparse are dominated by full re-match and unparsable-subset tests, no positive answer from a handler.",
     "C17": "R17d CP01 and CP05 own disjoint tokens.",
     "C26": "R26c also: a mask on the carried-over mode keeps all twelve mode bits.",
 }
